@@ -118,10 +118,10 @@ def typical_upper(model, desc, p=0.9995):
 DECIMAL = [0.05, 0.1, 0.2, 0.25, 0.5, 1.0]
 
 
-def gen_grid(rng, model, desc, max_cells, ratio_max=10.0, allow_default=False, min_axis=8):
+def gen_grid(rng, model, desc, max_cells, alpha=None, ratio_max=10.0, min_axis=8):
     """-> dict(limits, deltas) as they are passed to HighestDensityContour (JSON-able)"""
     n = len(desc["dims"])
-    ups = typical_upper(model, desc)
+    ups = typical_upper(model, desc, 0.9995 if alpha is None else min(1 - 1e-10, 1 - alpha / 30.0))
     scale = rng.choice([1.0, 1.0, 1.0, 1.3, 0.8, 0.55])   # < 1: the grid may be too small (RuntimeWarning path)
     per_axis = max(min_axis, int(round(max_cells ** (1.0 / n))))
     lims, dls = [], []
